@@ -140,6 +140,10 @@ func vc09_e2e(lo, hi int) {
 	c := v9contexts[lo+vsym_choice(hi-lo)]
 	v := v9sample(vsym_choice(v9numTypes))
 	src := c.pre + "{{ v }}" + c.post
+	if vsym_choice(2) == 1 {
+		// the shown value is the left operand of a default expression
+		src = c.pre + "{{ v default \"x\" }}" + c.post
+	}
 	// a global of the static type of v
 	pv := reflect.New(reflect.TypeOf(v))
 	pv.Elem().Set(reflect.ValueOf(v))
